@@ -17,8 +17,8 @@ CHECKS = {
  "C02": (MC, "ESX+BEE", ESX + "; plus " + BEE + " for the library's hash/equality pairs",
          "every history of put/create/find/remove/iterate-with-delete/foreach/clear/swap/move on the real table under harness-chosen hash functions (constant, zero, last-slot cluster, identity ...) to a fixpoint per configuration, against an association list, destructor deltas and white-box slot invariants",
          "<=5 live keys, listed hash functions and initial sizes; hash compaction", "5 C02"),
- "C03": (MC, "ESX+VSX", ESX + " (white-box over allocator_sba.c with an owned page pool); " + VSX + " for the multi-threaded allocator",
-         "every acquire/calloc/realloc/release history up to the depth bound on two page sizes with pattern, disjointness, alignment and accounting oracles; plus every interleaving (bound 2-4) of 2-3 threads on a multi-threaded allocator",
+ "C03": (MC, "ESX+VSX", ESX + " (white-box over allocator_sba.c with an owned page pool, and with pages + control block + parent blocks in one unscrubbed first-fit heap across destroy/new); " + VSX + " for the multi-threaded allocator",
+         "every acquire/calloc/realloc/release history up to the depth bound on two page sizes with pattern, disjointness, alignment and accounting oracles; every history of small / large (written or left unwritten) acquires, releases and destroy+new in a shared heap that keeps what freed pages leave behind; plus every interleaving (bound 2-4) of 2-3 threads on a multi-threaded allocator",
          "bounded slots/sizes/depth; sequentially consistent interleavings only", "5 C03"),
  "C04": (EX, "BEE", BEE,
          "every byte string up to a per-parser length over the bytes the parser distinguishes, plus 1-2 edit neighbourhoods of well-formed templates, through XML (all callback policies), JSON, CBOR, URI/query/percent-decoding, date-time, base64/hex/UTF-8, UUID, IPv4/IPv6 and number parsing in exact-size heap blocks under ASan with a watchdog; views handed back must lie inside the input",
